@@ -317,8 +317,9 @@ func (db *DB) startAsyncWritesRoutine(s *Schema) {
 					if n >= async.Threshold || slept >= async.Timeout {
 						// enter critical section
 						db.Lock()
-						// checking db.ctx not to race with db.Close function
-						if db.ctx.Err() == nil {
+						// checking db.ctx not to race with db.Close function, and
+						// that Drop did not take the schema away meanwhile
+						if db.ctx.Err() == nil && db.registered(s) {
 							if err := db.flushAllAndCommit(s.object); err != nil {
 								panic(err)
 							}
@@ -334,6 +335,13 @@ func (db *DB) startAsyncWritesRoutine(s *Schema) {
 	}
 }
 
+// registered tells whether s is still the schema of its collection
+func (db *DB) registered(s *Schema) bool {
+	db.sl.Lock()
+	defer db.sl.Unlock()
+	return db.schemas[stype(s.object)] == s
+}
+
 // safeAsyncState returns the number of pending writes and a copy of the
 // current async settings of the schema, nil if async writes are disabled
 func (db *DB) safeAsyncState(s *Schema) (n int, async *Async) {
@@ -342,10 +350,7 @@ func (db *DB) safeAsyncState(s *Schema) (n int, async *Async) {
 
 	// the routine of a schema which is not the one of its collection
 	// anymore (Drop) has nothing left to do
-	db.sl.Lock()
-	cur := db.schemas[stype(s.object)]
-	db.sl.Unlock()
-	if cur != s {
+	if !db.registered(s) {
 		return
 	}
 
